@@ -85,6 +85,8 @@ def main():
         pat = m.group(1).strip("'\"") if m else "."
         rel = "./" + meta.get("demo_dir", ".").strip("./") if meta.get("demo_dir", ".") not in (".", "") else "."
         cmd = ["go", "test", "-vet=off", "-count=1", "-run", pat, rel]
+        if "-race" in meta.get("demo_run", ""):
+            cmd.insert(2, "-race")
         rc_m, out_m = sh(cmd, cwd=wt)
         res["demo_fails_with_change"] = rc_m != 0
         os.remove(dst)
